@@ -119,9 +119,9 @@ def c03_2(ctx: Ctx):
     lin = linear(fi.node)
     d = [(g, c) for g, c in lin.all_calls() if src(c.func) == "old_cfg.discard"]
     a = [(g, c) for g, c in lin.all_calls() if src(c.func) == "new_cfg.add"]
-    ok = len(d) == 1 and src(d[0][1].args[0]) == "edge" and d[0][0].guard == TRUE
+    ok = len(d) == 1 and src(d[0][1].args[0]) == "edge" and d[0][0].top
     ctx.check(ok, fi, d[0][1] if d else fi.node, "old_cfg.discard(edge) unconditionally", "the old edge is not always removed: a moved edge would exist twice")
-    ok = len(a) == 1 and src(a[0][1].args[0]) == "edge._replace(**kwargs)" and a[0][0].guard == TRUE
+    ok = len(a) == 1 and src(a[0][1].args[0]) == "edge._replace(**kwargs)" and a[0][0].top
     ctx.check(ok, fi, a[0][1] if a else fi.node, "new_cfg.add(edge._replace(**kwargs)) unconditionally", "the replaced edge is not always added")
     dfl = [g for g in lin.stmts if isinstance(g.node, ast.Assign) and src(g.node.targets[0]) == "old_cfg"]
     ctx.check(len(dfl) == 1 and src(dfl[0].node.value) == "new_cfg" and lin.under(dfl[0], "old_cfg is None"), fi, dfl[0].node if dfl else fi.node,
@@ -223,7 +223,7 @@ def c03_6(ctx: Ctx):
         ctx.check(c_ok, fi, n, "call edges: callee return edges re-pointed old targets -> new target", "call-edge arm changed")
         ctx.check(f_ok, fi, n, "old fallthrough edges are discarded", "fallthrough arm changed")
     adds = [(g, c) for g, c in lin.all_calls() if src(c.func) == "cfg.add"]
-    ok = len(adds) == 1 and adds[0][0].guard == TRUE and _edge_ctor_type(adds[0][1]) == "Fallthrough"
+    ok = len(adds) == 1 and adds[0][0].top and _edge_ctor_type(adds[0][1]) == "Fallthrough"
     if ok:
         inner = adds[0][1].args[0]
         kws = {k.arg: src(k.value) for k in inner.keywords} if isinstance(inner, ast.Call) else {}
